@@ -6,6 +6,7 @@ package c08
 // panics must be package panics that leave every operand untouched.
 
 import (
+	"strings"
 	"math"
 	"math/big"
 	"math/cmplx"
@@ -522,6 +523,22 @@ func runElem[T any](sub string, c vcase, sp elemSpec[T], data func(slot int) []T
 		if i, w, tol, ok := sp.cumOK(d, sData); !ok {
 			return vk.Failf(sp.name+"/bound", "%v: dst[%d] = %v, exact prefix value %v, bound %g", c, i, d[i], w, tol)
 		}
+		// Outside the magnitude range of the bound above, re-association must at
+		// least not overflow or underflow where the documented left-to-right
+		// loop (want) stays comfortably inside the float64 range.
+		for i := range want {
+			wr, wi, gr, gi := parts(want[i]), partsIm(want[i]), parts(d[i]), partsIm(d[i])
+			for k, w := range []float64{wr, wi} {
+				g := []float64{gr, gi}[k]
+				lost := isFinite(w) && math.Abs(w) < 1e290 && !isFinite(g)
+				// a zero where the loop gives a normal number is an underflow only
+				// for products (for sums it is legitimate cancellation)
+				lost = lost || (strings.Contains(sp.name, "CumProd") && math.Abs(w) > 1e-290 && isFinite(w) && g == 0)
+				if lost {
+					return vk.Failf(sp.name+"/spurious-overflow-or-underflow", "%v: dst[%d] = %v, the documented left-to-right loop gives %v", c, i, d[i], want[i])
+				}
+			}
+		}
 		want = append([]T(nil), d...) // the returned slice must hold the same values
 	}
 	for i := range want {
@@ -637,4 +654,23 @@ func TestCmplxsElem(t *testing.T) {
 	grid := elemGrid(cmplxsElem)
 	vk.Enumerate(t, "cmplxs-elem", len(grid), func(i int) vcase { return grid[i] }, checkCmplxsElem)
 	vk.Run(t, "cmplxs-elem", vk.Opts{Quick: 12000, Thorough: 150000, NoCrumb: true}, drawElem(cmplxsElem), checkCmplxsElem)
+}
+
+// parts / partsIm return the real and imaginary part of a float64 or
+// complex128 element (imaginary part 0 for a float64).
+func parts(v any) float64 {
+	switch x := v.(type) {
+	case float64:
+		return x
+	case complex128:
+		return real(x)
+	}
+	return 0
+}
+
+func partsIm(v any) float64 {
+	if x, ok := v.(complex128); ok {
+		return imag(x)
+	}
+	return 0
 }
